@@ -318,6 +318,24 @@ def run_c16(tier, seed):
                 for exp in range(-scale - 1, 3):
                     out.append(decimal.Decimal(sign * m).scaleb(exp))
         return out
+    # beyond the default context precision (28 digits)
+    for precision, scale, size in ((38, 4, None), (38, 4, 16), (30, 0, None), (45, 10, 20)):
+        schema = sch("bytes", "decimal", precision=precision, scale=scale) if size is None else \
+            {"type": "fixed", "name": f"DH{precision}_{scale}_{size}", "size": size, "logicalType": "decimal", "precision": precision, "scale": scale}
+        for digits in (precision, precision - 1, 29, 28):
+            for sign in ("", "-"):
+                dg = tuple(((i * 7 + 3) % 10 or 1) for i in range(digits))
+                d = decimal.Decimal((1 if sign else 0, dg, -scale))      # exact: no context rounding
+                res.case("decimal", (precision, scale, size, str(d)))
+                try:
+                    b, back = rt(schema, d)
+                except Exception as e:   # noqa
+                    res.fail("decimal", f"{d} (p={precision}, s={scale}, size={size}) is representable but raised {type(e).__name__}: {e}",
+                             {"decimal": str(d), "precision": precision, "scale": scale, "size": size}, "")
+                    continue
+                if back != d:
+                    res.fail("decimal", f"{d} (p={precision}, s={scale}, size={size}) read back as {back}",
+                             {"decimal": str(d), "precision": precision, "scale": scale, "size": size}, "")
     for precision in ([1, 2, 5, 9] if tier == "quick" else range(1, 12)):
         for scale in sorted({0, 1, precision // 2, precision}):
             if scale > precision:
@@ -525,10 +543,21 @@ def logical_schemas():
     ]
 
 
+def nonrecord_tops():
+    key = {"type": "record", "name": "demo.Key", "fields": [{"name": "k", "type": "int"}]}
+    suit = {"type": "enum", "name": "Suit", "symbols": ["H", "S"]}
+    return [
+        {"type": "array", "items": {"type": "record", "name": "Pair", "fields": [{"name": "a", "type": key}, {"name": "b", "type": "demo.Key"}]}},
+        {"type": "map", "values": {"type": "record", "name": "Hand", "fields": [{"name": "s", "type": suit}, {"name": "t", "type": ["null", "Suit"]}]}},
+        [{"type": "array", "items": {"type": "record", "name": "Node", "fields": [{"name": "v", "type": "int"}, {"name": "next", "type": ["null", "Node"]}]}}, "null"],
+        ["null", {"type": "map", "values": {"type": "fixed", "name": "Fz2", "size": 2}}, {"type": "array", "items": "Fz2"}],
+    ]
+
+
 def run_c20(tier, seed):
     res = Result("C20", tier, seed)
     rng = random.Random(seed)
-    pool = list(gen.curated_schemas()) + list(gen.small_schemas(2, gen.PRIMS)) + logical_schemas()
+    pool = list(gen.curated_schemas()) + list(gen.small_schemas(2, gen.PRIMS)) + logical_schemas() + nonrecord_tops()
     for raw in pool:
         try:
             p, ns = SS.parse_top(raw)
